@@ -171,7 +171,7 @@ theorem enteringF_spec (hN : NK a0 N) (x : FCfg) (s : SObj) (h : ArmOk a0 x) (ht
           have hyx : y = x'.setC c2 := by cases hb; rfl
           rw [hy]
           exact ⟨faultExc, rfl, by show y'.l.c.closed = false; rw [hu1, hyx, setC_c, g1]; exact hl.2.1,
-            by show y'.l.c.cleanups = 0; rw [hu1, hyx, setC_c, g2]; exact hl.2.2, Or.inl ⟨rfl, hfy, hu3, hmk hhk⟩⟩
+            by show y'.l.c.cleanups = 0; rw [hu1, hyx, setC_c, g2]; exact hl.2.2, Or.inl ⟨rfl, hfy.1, hu3, hmk hhk⟩⟩
       · rcases hcase with ⟨y, _, e, hb, _⟩ | ⟨y, y', e, hb, hy, _, hu, hfy, hcalled⟩
         · rw [hb'] at hb; cases hb
         · rw [hb'] at hb
